@@ -6,6 +6,7 @@ simulation window must satisfy for `split = single`.
 -/
 import IrisVerif.Props.C01
 import IrisVerif.Model.FirstOrder
+import Mathlib.Algebra.Order.Archimedean.Basic
 
 open Matrix
 
@@ -231,5 +232,70 @@ example :
   intro h
   have := congrFun h 0
   simp [C01.impact, C01.Rexp, truncAfter, Finset.sum_range_succ, Matrix.mulVec, dotProduct] at this
+
+/-! ## Uniqueness: the computed solution is the stable one -/
+
+section unique
+open IrisVerif.C01
+variable {nj : Type} [Fintype nj] [DecidableEq nj]
+variable {F : Type} [Field F] [LinearOrder F] [IsStrictOrderedRing F] [Archimedean F]
+
+theorem pow_mulVec_bound_geom (B : Matrix nj nj F) (q : F) (hB : RowSumLe B q) (x : nj → F) (c : F) (hx : VecLe x c) (a : ℕ) :
+    VecLe ((B ^ a) *ᵥ x) (q ^ a * c) := by
+  induction a with
+  | zero => simpa using hx
+  | succ a ih =>
+    rw [pow_succ', ← Matrix.mulVec_mulVec]
+    intro i
+    have := mulVec_bound B _ q (q ^ a * c) hB ih i
+    rw [pow_succ, mul_comm (q ^ a) q, mul_assoc]; exact this
+
+/-- a bounded sequence that solves the backward recursion `e[t] = J e[t+1]` of the unstable block, `‖J^m‖∞ ≤ q < 1`, is zero -/
+theorem bounded_backward_zero (J : Matrix nj nj F) (m : ℕ) (q : F) (hq : RowSumLe (J ^ m) q) (hq0 : 0 ≤ q) (hq1 : q < 1)
+    (e : ℕ → nj → F) (he : ∀ t, e t = J *ᵥ e (t + 1)) (Bd : F) (hb : ∀ t, VecLe (e t) Bd) (t : ℕ) : e t = 0 := by
+  have hiter : ∀ n t, e t = (J ^ n) *ᵥ e (t + n) := by
+    intro n
+    induction n with
+    | zero => intro t; simp
+    | succ n ih =>
+      intro t
+      rw [ih t, he (t + n), Matrix.mulVec_mulVec, ← pow_succ, add_assoc]
+  funext i
+  by_contra hne
+  have hpos : 0 < |e t i| := abs_pos.mpr hne
+  have hBd : 0 ≤ Bd := le_trans (abs_nonneg _) (hb t i)
+  obtain ⟨a, ha⟩ : ∃ a : ℕ, q ^ a * Bd < |e t i| := by
+    by_cases hB0 : Bd = 0
+    · exact ⟨0, by rw [hB0, mul_zero]; exact hpos⟩
+    · have hBpos : 0 < Bd := lt_of_le_of_ne hBd (Ne.symm hB0)
+      obtain ⟨a, ha⟩ := exists_pow_lt_of_lt_one (div_pos hpos hBpos) hq1
+      exact ⟨a, by rwa [lt_div_iff₀ hBpos] at ha⟩
+  have hle : |e t i| ≤ q ^ a * Bd := by
+    have h1 := hiter (m * a) t
+    rw [pow_mul] at h1
+    have := pow_mulVec_bound_geom (J ^ m) q hq (e (t + m * a)) Bd (hb _) a i
+    rw [← h1] at this
+    exact this
+  exact absurd (lt_of_le_of_lt hle ha) (lt_irrefl _)
+
+/-- **Uniqueness of the unstable block ("the stable one")**: the forward-solved constant `Ku = J Ku + c` is the ONLY bounded solution of
+`un[t] = J un[t+1] + c` (the lower block of the transformed system without shocks, `J = -T22⁻¹ S22`, `c = -T22⁻¹ Q C₂`) -/
+theorem unstable_block_unique (J : Matrix nj nj F) (c Ku : nj → F) (hKu : Ku = J *ᵥ Ku + c) (m : ℕ) (q : F)
+    (hq : RowSumLe (J ^ m) q) (hq0 : 0 ≤ q) (hq1 : q < 1)
+    (un : ℕ → nj → F) (hun : ∀ t, un t = J *ᵥ un (t + 1) + c) (Bd : F) (hb : ∀ t, VecLe (un t) Bd) (t : ℕ) : un t = Ku := by
+  have hKb : ∃ Bk, VecLe Ku Bk := ⟨∑ i, |Ku i|, fun i => Finset.single_le_sum (f := fun i => |Ku i|) (fun _ _ => abs_nonneg _) (Finset.mem_univ i)⟩
+  obtain ⟨Bk, hBk⟩ := hKb
+  have h0 := bounded_backward_zero J m q hq hq0 hq1 (fun t => un t - Ku)
+    (by intro t; show un t - Ku = J *ᵥ (un (t + 1) - Ku); rw [Matrix.mulVec_sub, hun t]; nth_rewrite 1 [hKu]; abel)
+    (Bd + Bk) (by intro t i; show |un t i - Ku i| ≤ Bd + Bk; exact le_trans (abs_sub _ _) (add_le_add (hb t i) (hBk i))) t
+  exact sub_eq_zero.mp h0
+
+end unique
+
+/-- non-vacuity: the unstable block of the scalar example (`J = 2/3`, `c = 2/3`, `Ku = 2`, see `C01QZ.exQZ`) meets every hypothesis -/
+example : (![2] : Fin 1 → ℚ) = !![2/3] *ᵥ ![2] + ![2/3] ∧ C01.RowSumLe (nb := Fin 1) (F := ℚ) (!![2/3] ^ 1) (2/3) := by
+  refine ⟨?_, ?_⟩
+  · ext i; fin_cases i; simp; norm_num
+  · intro i; fin_cases i; simp [abs_of_pos]
 
 end IrisVerif.C01State
